@@ -16,9 +16,10 @@
 (* oracle of C05), and for typed signatures every argument lands in a      *)
 (* parameter of act whose type contains the type exp promised.             *)
 (*                                                                         *)
-(* Types: a chain  C <: B <: A <: object  of ranks 0..3 and "any" = 9      *)
-(* (unannotated).  TypeFits(target, source) is the chain order; it is the  *)
-(* only fact about Value.can_assign this module assumes, and the real      *)
+(* Types: a chain  C <: B <: A <: object  of ranks 0..3, a class U (rank  *)
+(* 5) unrelated to the chain (U <: object only) and "any" = 9              *)
+(* (unannotated).  TypeFits(target, source) is the subclass order; it is   *)
+(* the only fact about Value.can_assign this module assumes, and the real  *)
 (* result is compared with it in every run (drift).                        *)
 (***************************************************************************)
 EXTENDS CPythonBind, TLC
@@ -34,8 +35,11 @@ CONSTANTS
     SCMutant       \* "none" or a seeded model bug (sensitivity self-test)
 
 AnyTy == 9
-\* Value.can_assign on the chain: a value of type `source` may be passed where `target` is declared
-TypeFits(target, source) == target = AnyTy \/ source = AnyTy \/ source <= target
+UnrelatedTy == 5
+\* the subclass order of the realised classes (on the chain 0..3 it is <=; U is below object only)
+SubRank(x, y) == x = y \/ y = 3 \/ (x # UnrelatedTy /\ y # UnrelatedTy /\ x <= y)
+\* Value.can_assign on classes: a value of type `source` may be passed where `target` is declared
+TypeFits(target, source) == target = AnyTy \/ source = AnyTy \/ SubRank(source, target)
 \* The checks of THEIR extra positional / keyword parameters against MY *args / **kwargs
 \* (signature.py:1631, :1655) compare the extra parameter's annotation T with my_param.get_annotation(),
 \* which for *args: S is tuple[S, ...] and for **kwargs: S is dict[str, S] -- not with S.  So they
@@ -112,7 +116,8 @@ ImplBranchC(exp, act, s) ==
               ELSE IF ~TypeFits(TheirKwargsTy(act), my.ty) THEN "VK_Type"            \* :1642
               ELSE IF \E j \in DOMAIN act :                                          \* :1646-1662
                         /\ act[j].kind \in {"ko", "pk"} /\ act[j].name \notin s.ckw
-                        /\ act[j].name \notin s.creq
+                        /\ (IF SCMutant = "exempt_consumed_positional"                   \* seeded model bug
+                            THEN act[j].name \notin s.cpos ELSE act[j].name \notin s.creq)   \* :1669
                         /\ ~ExtraFits(act[j].ty, my.ty)
                    THEN "VK_ExtraKeywordType"
               ELSE "VK_Ok"
@@ -184,14 +189,18 @@ RefKeywordTarget(sig, k) ==
 
 \* contravariance of parameters under the membership model: whatever exp lets a caller pass for an
 \* argument is a member of the type act declares for the parameter that argument lands in
-TypeContains(sup, sub) == sup = AnyTy \/ sub = AnyTy \/ sub <= sup      \* Member(v, sub) => Member(v, sup) on the chain
+TypeContains(sup, sub) == sup = AnyTy \/ sub = AnyTy \/ SubRank(sub, sup)      \* Member(v, sub) => Member(v, sup)
+\* one bound call cc whose arguments have the types exp declares for the parameters they land in (a keyword that
+\* lands in exp's **kwargs has its value type, a positional that lands in *args its element type): every argument
+\* is a member of the type act declares for the parameter it lands in there
+RefContravariantAtShape(c, cc) ==
+    /\ \A n \in 1..cc.npos :
+         TypeContains(c.act[RefPositionalTarget(c.act, n)].ty, c.exp[RefPositionalTarget(c.exp, n)].ty)
+    /\ \A k \in cc.kws :
+         TypeContains(c.act[RefKeywordTarget(c.act, k)].ty, c.exp[RefKeywordTarget(c.exp, k)].ty)
 RefContravariant(c, maxpos, maxkw) ==
     \A cc \in CallShapes(c, maxpos, maxkw) :
-        (RefBinds(c.exp, cc) /\ RefBinds(c.act, cc)) =>
-            /\ \A n \in 1..cc.npos :
-                 TypeContains(c.act[RefPositionalTarget(c.act, n)].ty, c.exp[RefPositionalTarget(c.exp, n)].ty)
-            /\ \A k \in cc.kws :
-                 TypeContains(c.act[RefKeywordTarget(c.act, k)].ty, c.exp[RefKeywordTarget(c.exp, k)].ty)
+        (RefBinds(c.exp, cc) /\ RefBinds(c.act, cc)) => RefContravariantAtShape(c, cc)
 RefCovariantReturn(c) == TypeContains(c.exp_ret, c.act_ret)
 
 (***************************************************************************)
@@ -292,8 +301,7 @@ Final_ExtraParam == stage = "loop" /\ FinC("Final_ExtraParam")
 Final_ExtraKwOnly == stage = "loop" /\ FinC("Final_ExtraKwOnly")
 Final_Ok == stage = "loop" /\ FinC("Final_Ok")
 
-SCNext ==
-    \/ AddExp \/ EndExp \/ AddAct \/ EndAct
+SCLoopNext ==
     \/ PosOnly_Match \/ PosOnly_NoDefault \/ PosOnly_Type \/ PosOnly_ViaVarArgs \/ PosOnly_VarArgsType
     \/ PosOnly_NotAccepted
     \/ PosOrKw_Match \/ PosOrKw_NameMismatch \/ PosOrKw_NoDefault \/ PosOrKw_Type \/ PosOrKw_TheirPosOnly
@@ -302,6 +310,7 @@ SCNext ==
     \/ VarPos_Ok \/ VarPos_NotAccepted \/ VarPos_Type \/ VarPos_ExtraPositionalType
     \/ VarKw_Ok \/ VarKw_NotAccepted \/ VarKw_Type \/ VarKw_ExtraKeywordType
     \/ Final_ExtraPosOnly \/ Final_ExtraParam \/ Final_ExtraKwOnly \/ Final_Ok
+SCNext == AddExp \/ EndExp \/ AddAct \/ EndAct \/ SCLoopNext
 
 (***************************************************************************)
 (* Properties                                                              *)
